@@ -569,6 +569,79 @@ pub fn quiet_vs_loud_long(tier: Tier, threads: usize) -> (u64, Vec<(String, Stri
     (cases.len() as u64 * 2, out, err)
 }
 
+/// C16 at the socket: one client pipelines requests with small responses (noops, misses, counters)
+/// and never reads, until the server is blocked on the full socket; other connections - one opened
+/// before, one opened now - are still served, and when the first client finally reads, everything
+/// it is owed arrives.
+pub fn unread_small_responses(tier: Tier) -> (u64, Vec<(String, String)>, Option<String>) {
+    let mut out = vec![];
+    let mut n = 0u64;
+    let kinds: &[&str] = if tier == Tier::Quick { &["noop", "get-miss"] } else { &["noop", "get-miss", "incr", "version"] };
+    for kind in kinds {
+        n += 1;
+        crate::watchdog::working_on(format!("C16 socket: a client pipelines {} requests and never reads its responses; other connections must still be served", kind));
+        let r = (|| -> Result<Option<String>, String> {
+            let w = net::NetWorld::new(NetCfg::default())?;
+            let mut early = w.connect()?;
+            early.step(&w, &Req::bare(op::NOOP).opaque(1).bytes())?;
+            let mut a = w.connect()?;
+            let one = match *kind {
+                "noop" => Req::bare(op::NOOP).opaque(7).bytes(),
+                "get-miss" => Req::get(op::GET, b"nope").opaque(7).bytes(),
+                "incr" => Req::delta(op::INCR, b"ctr", 1, 0, 0, 0).opaque(7).bytes(),
+                _ => Req::bare(op::VERSION).opaque(7).bytes(),
+            };
+            // 24 MB of requests at most: far more than both socket buffers together
+            let mut burst = Vec::with_capacity(one.len() * 50_000);
+            for _ in 0..50_000 {
+                burst.extend(&one);
+            }
+            let mut sent = 0usize;
+            for _ in 0..20 {
+                let k = a.send_never_reading(&w, &burst);
+                sent += k;
+                if k < burst.len() {
+                    break;
+                }
+            }
+            let requests = sent / one.len();
+            // the server is blocked (or idle): the others are served
+            let g0 = early.got.len();
+            let io1 = early.step(&w, &Req::bare(op::NOOP).opaque(2).bytes());
+            if io1.is_err() || wire::split_responses(&early.got[g0..]).0.len() != 1 {
+                return Ok(Some(format!("after {} unread requests a connection opened earlier is not answered any more", requests)));
+            }
+            let mut fresh = w.connect()?;
+            let io2 = fresh.step(&w, &Req::bare(op::NOOP).opaque(3).bytes());
+            if io2.is_err() || wire::split_responses(&fresh.got).0.len() != 1 {
+                return Ok(Some(format!("after {} unread requests a fresh connection is not served", requests)));
+            }
+            // and the reader that comes back gets everything it is owed
+            for _ in 0..200_000 {
+                a.pump();
+                w.settle();
+                let before = a.got.len();
+                a.pump();
+                if a.got.len() == before {
+                    break;
+                }
+            }
+            let (resps, residue) = wire::split_responses(&a.got);
+            if residue != 0 || resps.len() != requests {
+                return Ok(Some(format!("the client sent {} whole requests and, reading at last, received {} whole responses ({} stray bytes)", requests, resps.len(), residue)));
+            }
+            Ok(None)
+        })();
+        crate::watchdog::idle();
+        match r {
+            Ok(Some(what)) => out.push((format!("unread-small-responses|{}", kind), format!("a client pipelines {} requests without reading: {}", kind, what))),
+            Ok(None) => {}
+            Err(e) => return (n, out, Some(e)),
+        }
+    }
+    (n, out, None)
+}
+
 type Content = Vec<(Vec<u8>, Vec<u8>, u32, u32)>;
 
 fn content(d: &[crate::sut::DumpItem]) -> Content {
